@@ -210,6 +210,7 @@ fn run_grammar(ctx: &Ctx, g: &SpecGrammar, vocab: &VocabSpec, depth: usize) {
     let mut q = VecDeque::new();
     q.push_back(N { m: root, c: c0, hist: vec![] });
     while let Some(mut n) = q.pop_front() {
+        crate::watchdog::beat();
         ctx.states.fetch_add(1, Ordering::Relaxed);
         if n.m.is_error() {
             ctx.violation(viol(g, vocab, "engine_error", "special-token-engine-error", &n.hist, json!({"err": n.m.get_error()})));
